@@ -74,7 +74,7 @@ eval)
   # tools/seeded.sh eval <patch.diff> <check ids...> : apply the patch to a private worktree
   # (/tmp/eval_wt) and run the quick checks against it through VERIF_REPO; /repo is untouched.
   patch="$1"; shift
-  EV=/tmp/eval_wt
+  EV="${EVAL_WT:-/tmp/eval_wt}"
   if [ ! -d "$EV" ]; then git -C /repo worktree add -q --detach "$EV" HEAD || exit 2; fi
   git -C "$EV" checkout -q --detach "$(git -C /repo rev-parse HEAD)" && git -C "$EV" checkout -q -- . && git -C "$EV" clean -qfd -e target
   git -C "$EV" apply "$patch" || { echo "patch does not apply"; exit 2; }
